@@ -83,3 +83,40 @@ Example C14_early_pubcomp_witness :
   wire (sink_op s (ORelease 1)) = [] /\
   map (fun p => tst (snd p)) (tasks (sink_op s (ORelease 1))) = [TDone ST_UNEXPRELEASE].
 Proof. vm_compute. repeat split; reflexivity. Qed.
+
+(* ---------------------------------------------------------------- every reachable receipt has its channel *)
+From MV Require Import Proofs.SinkWire.
+
+(* [pubcomp_after_pubrel s ops] (executable): whenever the dispatcher processes a PUBCOMP(id) on an open connection, the
+   rx map no longer holds [id] -- release_publish removed the entry when it wrote PUBREL(id), i.e. the peer sends
+   PUBCOMP only after our PUBREL.  Under it, in every reachable state every task holding a receipt [TReceipt id] still
+   has the PUBCOMP channel registered under its own identifier: the hypothesis [rxm_find id (rxm s) = Some c] of
+   C14_release_writes_own_pubrel / C14_release_waits_own_pubcomp holds for every reachable receipt.
+   (Invariant behind it, [rcpt_inv]: a task that holds a receipt, or whose QoS 2 send has been answered by PUBREC and
+   will get the receipt at its next poll, has the entry, and no two tasks hold the receipt of the same identifier.) *)
+Theorem C14_receipt_has_channel : forall (v : N) (cl : bool) (c : N) (ops : list op) (t : N) (x : task) (id : N),
+  pubcomp_after_pubrel (sink_init v cl c) ops = true ->
+  find_task t (tasks (run_from (sink_init v cl c) ops)) = Some x -> tst x = TReceipt id ->
+  exists ch, rxm_find id (rxm (run_from (sink_init v cl c) ops)) = Some ch.
+Proof. exact receipt_has_channel. Qed.
+Print Assumptions C14_receipt_has_channel.
+
+(* hence, without any hypothesis on the state: releasing or dropping ANY reachable receipt writes exactly the PUBREL
+   of its own identifier (open io, no payload being streamed), nothing otherwise *)
+Theorem C14_every_receipt_release_writes_pubrel : forall (v : N) (cl : bool) (c : N) (ops : list op) (t : N) (x : task) (id : N),
+  pubcomp_after_pubrel (sink_init v cl c) ops = true ->
+  let s := run_from (sink_init v cl c) ops in
+  find_task t (tasks s) = Some x -> tst x = TReceipt id ->
+  wire (release_task s t) = (if (io s =? 0) && (crem s =? 0) then wire s ++ [W_PUBREL; id] else wire s) /\
+  wire (drop_receipt s t) = (if (io s =? 0) && (crem s =? 0) then wire s ++ [W_PUBREL; id] else wire s).
+Proof. exact every_receipt_release_writes_pubrel. Qed.
+Print Assumptions C14_every_receipt_release_writes_pubrel.
+
+(* the predicate holds on the three-exchange run of C14_nonvacuous (PUBCOMPs after the releases) and is exactly what the
+   early-PUBCOMP witness violates *)
+Example C14_receipt_nonvacuous :
+  pubcomp_after_pubrel (sink_init 5 true 1)
+    [OSetCap 3; OStart 1 2 0 0; OStart 2 2 0 0; OStart 3 2 0 0; OAcks [(2, 1); (2, 2); (2, 3)]; OPoll 1; OPoll 2; OPoll 3;
+     ORelease 2; ODropReceipt 3; ORelease 1; OAcks [(3, 1); (3, 2); (3, 3)]; OPoll 1; OPoll 2] = true /\
+  pubcomp_after_pubrel (sink_init 3 true 1) [OStart 1 2 0 0; OAcks [(2, 1)]; OPoll 1; OAcks [(3, 1)]] = false.
+Proof. vm_compute. split; reflexivity. Qed.
